@@ -89,8 +89,8 @@ func objVar(info *types.Info, id *ast.Ident) *types.Var {
 }
 
 func checkC12(r *core.Run) {
-	r.Explain = "Decided statically, every obligation exact: (C12.registry) every type implementing codec.Codec's three methods is registered in codec.Init, its GetMessageType constant equals GetTypeCode of the message type its Encode asserts and its Decode returns, and every message type the client constructs or asserts outside the codec package has a codec; (C12.mirror) for each codec the extracted encode layout (wire kind, field, guard, scale) equals the decode layout, with inverse scaling; (C12.layout) the extracted layout equals the hand-written Seata v1 field table in spec/seata_v1_layout.json; (C12.bound) a string written with an N-bit length prefix after a truncation is truncated to a constant <= 2^(N-1)-1; (C12.frame) CodecManager.Encode prepends the 16-bit type code of the message and Decode dispatches on it and hands in[2:] to the codec. NOT decided: field values beyond the prefix limits other than the truncated message text; multi-byte strings (lengths are byte lengths on both sides by construction of the helpers — trusted)."
-	r.Trusted = []string{"go/types", "pkg/util/bytes helper semantics (big endian integers, length-prefixed strings)", "spec/seata_v1_layout.json (hand-written field table)"}
+	r.Explain = "Decided statically, every obligation exact: (C12.registry) every type implementing codec.Codec's three methods is registered in codec.Init, its GetMessageType constant equals GetTypeCode of the message type its Encode asserts and its Decode returns, and every message type the client constructs or asserts outside the codec package has a codec; (C12.mirror) for each codec the extracted encode layout (wire kind, field, guard, scale) equals the decode layout, with inverse scaling; (C12.layout) the extracted layout equals the hand-written Seata v1 field table in spec/seata_v1_layout.json; (C12.bound) a string written with an N-bit length prefix after a truncation is truncated to a constant <= 2^(N-1)-1; (C12.frame) CodecManager.Encode prepends the 16-bit type code of the message and Decode dispatches on it and hands in[2:] to the codec. (C12.helpers) each length-prefixed string writer of pkg/util/bytes writes, as its prefix, the byte length len(value) of the string it then writes in full, and each reader allocates a fresh buffer of exactly the prefix it read, fills it from the frame and returns a copy (string(p)); the package does not import unsafe. NOT decided: field values beyond the prefix limits other than the truncated message text."
+	r.Trusted = []string{"go/types", "pkg/util/bytes integer helpers (big endian) and dubbogo/gost ByteBuffer Read/Write", "spec/seata_v1_layout.json (hand-written field table)"}
 	w := r.W
 	ci := w.Interface("pkg/protocol/codec", "Codec")
 	initFn := r.Anchor("C12.registry", w.Func("pkg/protocol/codec", "", "Init"), "codec.Init")
@@ -221,6 +221,8 @@ func checkC12(r *core.Run) {
 	// every message type used by non-codec code has a codec
 	c12Used(r, codecFor)
 	c12Frame(r)
+	c12Helpers(r, "C12.helpers")
+	r.Floor("C12.helpers", 8)
 	r.Floor("C12.registry", 60)
 	r.Floor("C12.mirror", 22)
 	r.Floor("C12.layout", 22)
@@ -555,4 +557,195 @@ func byteBounded(fn *core.FuncInfo, arg ast.Expr, at token.Pos, limit constant.V
 		return true, "'" + baseText + "' kept when len <= " + k + ", otherwise " + strings.Join(notes, ", ")
 	}
 	return false, "'" + id.Name + "' holds the whole text '" + baseText + "' unless a truncation the rule can follow intervenes; none found"
+}
+
+// c12Helpers: byte-length prefixes on both sides of every length-prefixed string helper, strings copied out.
+func c12Helpers(r *core.Run, rule string) {
+	w := r.W
+	p := w.Pkg("pkg/util/bytes")
+	if p == nil {
+		r.Anchor(rule, nil, "pkg/util/bytes")
+		return
+	}
+	for _, imp := range p.Types.Imports() {
+		if imp.Path() == "unsafe" {
+			r.Bad(rule, "pkg/util/bytes does not import unsafe", "", "the byte helpers import unsafe: a string built over the receive buffer without a copy changes when the transport reuses the buffer for the next frame")
+		}
+	}
+	r.OK(rule, "pkg/util/bytes does not import unsafe", "", "strings are copies")
+	isLen := func(info *types.Info, e ast.Expr, v types.Object) bool {
+		// conv(len(v))
+		for {
+			c, ok := ast.Unparen(e).(*ast.CallExpr)
+			if !ok || len(c.Args) != 1 {
+				return false
+			}
+			if id, ok := ast.Unparen(c.Fun).(*ast.Ident); ok && info.Uses[id] == types.Universe.Lookup("len") {
+				return isObj(info, c.Args[0], v)
+			}
+			if tv, ok := info.Types[c.Fun]; ok && tv.IsType() {
+				e = c.Args[0]
+				continue
+			}
+			return false
+		}
+	}
+	for _, f := range w.SortedFuncs() {
+		if f.Pkg != p || w.IsTestFile(f.Decl.Pos()) || f.Decl.Recv != nil {
+			continue
+		}
+		name := f.Obj.Name()
+		info := p.TypesInfo
+		switch {
+		case strings.HasPrefix(name, "WriteString") && strings.HasSuffix(name, "Length"):
+			r.Fn(f)
+			r.Sites++
+			ps := paramObjs(f)
+			var val types.Object
+			for _, q := range ps {
+				if b, ok := q.Type().Underlying().(*types.Basic); ok && b.Info()&types.IsString != 0 {
+					val = q
+				}
+			}
+			key := "pkg/util/bytes." + name + " prefix is the byte length of the value written"
+			if val == nil {
+				r.Undecided(rule, key, w.Pos(f.Decl.Pos()), "no string parameter")
+				continue
+			}
+			// every write of a non-constant integer is conv(len(value)); the value itself is written in full
+			bad, wroteValue, wroteLen := "", false, false
+			ast.Inspect(f.Decl.Body, func(n ast.Node) bool {
+				c, ok := n.(*ast.CallExpr)
+				if !ok {
+					return true
+				}
+				sel, ok := ast.Unparen(c.Fun).(*ast.SelectorExpr)
+				if !ok || len(c.Args) != 1 {
+					return true
+				}
+				switch {
+				case sel.Sel.Name == "WriteString" || sel.Sel.Name == "Write":
+					a := ast.Unparen(c.Args[0])
+					if cv, ok := a.(*ast.CallExpr); ok && len(cv.Args) == 1 { // []byte(value)
+						a = ast.Unparen(cv.Args[0])
+					}
+					if isObj(info, a, val) {
+						wroteValue = true
+					} else {
+						bad = "writes '" + core.ExprString(c.Args[0]) + "' instead of the whole value"
+					}
+				case strings.HasPrefix(sel.Sel.Name, "Write"):
+					if core.ConstVal(info, c.Args[0]) != nil {
+						return true
+					}
+					if isLen(info, c.Args[0], val) {
+						wroteLen = true
+					} else {
+						bad = "the prefix written is '" + core.ExprString(c.Args[0]) + "', not len(" + val.Name() + ")"
+					}
+				}
+				return true
+			})
+			if bad == "" && (!wroteValue || !wroteLen) {
+				bad = "no write of len(value) followed by the value found"
+			}
+			r.Check(bad == "", rule, key, w.Pos(f.Decl.Pos()), "prefix = len(value) in bytes, then the value", bad+": the reader takes the prefix as a byte count, so a value whose byte length differs (multi-byte text) shifts every following field")
+		case strings.HasPrefix(name, "ReadString") && strings.HasSuffix(name, "Length"):
+			r.Fn(f)
+			r.Sites++
+			key := "pkg/util/bytes." + name + " copies exactly the prefixed number of bytes"
+			bad := readCopies(w, f, nil, 2)
+			r.Check(bad == "", rule, key, w.Pos(f.Decl.Pos()), "make(prefix) + Read + string copy", bad+": the decoded string would have another length than the writer's prefix, or alias the transport's receive buffer")
+		}
+	}
+}
+
+// readCopies: fn reads a length (or takes it as parameter lengthP), allocates make([]byte, length), fills it with
+// buf.Read and returns string(p); a return that delegates to a same-package function handing over the length is
+// followed (depth bounded). Returns "" when the pattern holds, else what deviates.
+func readCopies(w *core.World, f *core.FuncInfo, lengthP types.Object, depth int) string {
+	info := f.Pkg.TypesInfo
+	lengthV := lengthP
+	var bufV types.Object
+	bad := ""
+	okMake, okRead, okRet := false, false, false
+	sameLen := func(e ast.Expr) bool {
+		for {
+			e = ast.Unparen(e)
+			if lengthV != nil && isObj(info, e, lengthV) {
+				return true
+			}
+			c, ok := e.(*ast.CallExpr)
+			if !ok || len(c.Args) != 1 {
+				return false
+			}
+			if tv, ok := info.Types[c.Fun]; !ok || !tv.IsType() {
+				return false
+			}
+			e = c.Args[0]
+		}
+	}
+	ast.Inspect(f.Decl.Body, func(n ast.Node) bool {
+		switch x := n.(type) {
+		case *ast.AssignStmt:
+			if len(x.Rhs) != 1 {
+				return true
+			}
+			c, ok := ast.Unparen(x.Rhs[0]).(*ast.CallExpr)
+			if !ok {
+				return true
+			}
+			if sel, ok := ast.Unparen(c.Fun).(*ast.SelectorExpr); ok && strings.HasPrefix(sel.Sel.Name, "Read") && len(c.Args) == 0 && lengthV == nil {
+				lengthV = core.ObjOf(info, x.Lhs[0])
+			}
+			if id, ok := ast.Unparen(c.Fun).(*ast.Ident); ok && id.Name == "make" && len(c.Args) == 2 {
+				if sameLen(c.Args[1]) {
+					okMake = true
+					bufV = core.ObjOf(info, x.Lhs[0])
+				} else {
+					bad = "the buffer is sized '" + core.ExprString(c.Args[1]) + "', not the prefix that was read"
+				}
+			}
+		case *ast.CallExpr:
+			if sel, ok := ast.Unparen(x.Fun).(*ast.SelectorExpr); ok && sel.Sel.Name == "Read" && len(x.Args) == 1 && bufV != nil && isObj(info, x.Args[0], bufV) {
+				okRead = true
+			}
+		case *ast.ReturnStmt:
+			if len(x.Results) != 1 {
+				return true
+			}
+			if v := core.ConstVal(info, x.Results[0]); v != nil {
+				return true
+			}
+			c, ok := ast.Unparen(x.Results[0]).(*ast.CallExpr)
+			if ok && len(c.Args) == 1 && bufV != nil && isObj(info, c.Args[0], bufV) {
+				if tv, ok := info.Types[c.Fun]; ok && tv.IsType() {
+					okRet = true
+					return true
+				}
+			}
+			// delegation: g(.. length ..) in the same package
+			if ok && depth > 0 {
+				if g := w.Info(core.Callee(info, c)); g != nil && g.Pkg == f.Pkg {
+					gp := paramObjs(g)
+					for i, a := range c.Args {
+						if sameLen(a) && i < len(gp) {
+							if sub := readCopies(w, g, gp[i], depth-1); sub == "" {
+								okMake, okRead, okRet = true, true, true
+							} else {
+								bad = core.ShortKey(g.Obj) + ": " + sub
+							}
+							return true
+						}
+					}
+				}
+			}
+			bad = "returns '" + core.ExprString(x.Results[0]) + "', not a copy string(p) of the bytes read"
+		}
+		return true
+	})
+	if bad == "" && !(okMake && okRead && okRet) {
+		bad = "pattern length := Read..(); p := make([]byte, length); buf.Read(p); return string(p) not found"
+	}
+	return bad
 }
